@@ -695,6 +695,9 @@ func subEvLn() subx {
 		inits: []initState{
 			{label: "plain"},
 			{label: "Start(WithLinks(A{p,q}, B{}))", links: []mLink{{kind: 'A', id: 100, all: []kv{kI("p", 1), kI("q", 2)}}, {kind: 'B', id: 101}}},
+			// more start links than a small limit holds, with links that are no links among them
+			{label: "Start(WithLinks(A{p,q}, B{}, I{}))", links: []mLink{{kind: 'A', id: 100, all: []kv{kI("p", 1), kI("q", 2)}}, {kind: 'B', id: 101}, {kind: 'I', id: 102}}},
+			{label: "Start(WithLinks(I{}, A{p}, I{}, B{}, I{r}))", links: []mLink{{kind: 'I', id: 100}, {kind: 'A', id: 101, all: []kv{kI("p", 1)}}, {kind: 'I', id: 102}, {kind: 'B', id: 103}, {kind: 'I', id: 104, all: []kv{kI("r", 1)}}}},
 		},
 	}
 }
@@ -847,6 +850,9 @@ func (x *run) eval(sx *subx, L limits, initIdx int, hist []int) string {
 	// model: initial state
 	m := newModel(L)
 	for _, l := range in.links {
+		if l.kind == 'I' && len(l.all) == 0 {
+			continue // neither a valid context nor attributes nor tracestate: not a link (nor a dropped one)
+		}
 		m.addLink(l)
 	}
 	m.setAttrs(in.sampler)
@@ -860,7 +866,14 @@ func (x *run) eval(sx *subx, L limits, initIdx int, hist []int) string {
 	if len(in.links) > 0 {
 		var ls []trace.Link
 		for _, l := range in.links {
-			ls = append(ls, trace.Link{SpanContext: linkSC(l.kind, l.id), Attributes: realKVs(l.all)})
+			rl := trace.Link{Attributes: realKVs(l.all)}
+			if l.kind != 'I' {
+				rl.SpanContext = linkSC(l.kind, l.id)
+			}
+			if len(l.all) == 0 {
+				rl.Attributes = nil
+			}
+			ls = append(ls, rl)
 		}
 		startOpts = append(startOpts, trace.WithLinks(ls...))
 	}
